@@ -333,6 +333,15 @@ def run(chk, only=None):
             verdicts, total, masked = timed("check", _decide, chk, sc, recs, "all", reserved)
             _report(chk, recs, verdicts)
             chk.traces += total
+            # vacuity guard: a case whose base module is already rejected decides nothing ("masked")
+            sk_text, _ = layout_render.render({"mattrs": [], "types": []})
+            sk = typing_pool.compile_all([(0, {"m.emb": sk_text}, "m.emb")])[0]
+            if not sk["acc"]:
+                chk.violation("realisable_rejected:empty-program", "the module with no generated declaration at all is rejected: %s\n%s"
+                              % ("; ".join(e["msg"] for e in sk["errs"][:3]) or sk["exc_text"], sk_text), {"emb": sk_text})
+            elif masked * 5 > total:
+                raise MachineryError("%d of %d cases are masked by a rejected base module although the empty program is accepted: "
+                                     "the run decides too little" % (masked, total))
             chk.extra["cases"] = {"total": total, "realisable": sum(1 for c in cases if c["ok"]),
                                   "unrealisable": sum(1 for c in cases if not c["ok"]),
                                   "masked_by_rejected_base": masked}
